@@ -389,3 +389,18 @@ def as_less(e: ast.AST) -> Optional[Tuple[ast.AST, str, ast.AST]]:
         return (r, "<=", l)
     return None
 
+
+_MIRROR = {ast.Lt: ast.Gt, ast.LtE: ast.GtE, ast.Gt: ast.Lt, ast.GtE: ast.LtE, ast.Eq: ast.Eq, ast.NotEq: ast.NotEq}
+
+
+def len_vs_const(e: ast.AST, is_len: Callable[[str], bool]):
+    """`len(x) OP c` or the mirrored `c OP' len(x)` -> (OP instance as if the length were on the left, c); else None"""
+    if not (isinstance(e, ast.Compare) and len(e.ops) == 1 and type(e.ops[0]) in _MIRROR):
+        return None
+    l, r = e.left, e.comparators[0]
+    if is_len(norm(l)) and isinstance(r, ast.Constant):
+        return e.ops[0], r.value
+    if is_len(norm(r)) and isinstance(l, ast.Constant):
+        return _MIRROR[type(e.ops[0])](), l.value
+    return None
+
